@@ -1,1 +1,612 @@
+//! The harness side of n2's verification hooks: a scripted, gated executor.
+//!
+//! n2 still spawns its real task threads, which run the real `run_task`; only
+//! the innermost `run_command` is replaced.  Each task thread parks on a gate;
+//! when the main thread is about to block in `Runner::wait`, the hook waits
+//! until every started task has parked, asks the explorer which one finishes
+//! next, and releases exactly that one.  Exactly one thread runs at any time,
+//! so an execution is a function of (scenario, choice list).
 
+use crate::worker::{catch, PanicRecord};
+use n2::verif::{BuildOpts, Hooks, ProgressEvent, Termination};
+use std::path::Path;
+use std::sync::{Condvar, Mutex, MutexGuard};
+use std::time::{Duration, Instant, SystemTime};
+
+/// What a scripted command does when it is released.  Runs on the task
+/// thread, while every other thread is blocked.
+pub trait CommandModel: Send {
+    fn run(&mut self, cmdline: &str, output: &mut dyn FnMut(&[u8])) -> Term;
+    fn as_any(&mut self) -> &mut dyn std::any::Any;
+}
+
+#[derive(Debug, Clone, Copy, PartialEq, Eq, Hash)]
+pub enum Term {
+    Success,
+    Failure,
+    Interrupted,
+}
+
+impl Term {
+    fn to_n2(self) -> Termination {
+        match self {
+            Term::Success => Termination::Success,
+            Term::Failure => Termination::Failure,
+            Term::Interrupted => Termination::Interrupted,
+        }
+    }
+    fn from_n2(t: &Termination) -> Term {
+        match t {
+            Termination::Success => Term::Success,
+            Termination::Failure => Term::Failure,
+            Termination::Interrupted => Term::Interrupted,
+        }
+    }
+}
+
+#[derive(Debug, Clone, PartialEq, Eq, Hash)]
+pub enum Event {
+    /// A `Work::run` begins (a new phase of the invocation).
+    RunBegin { parallelism: usize },
+    /// `Runner::start` on the main thread.
+    Start { build: usize, cmdline: String },
+    /// `Runner::wait` about to block; `believed` is n2's own running count,
+    /// `running` the builds whose commands are actually in flight.
+    Wait { believed: usize, running: Vec<usize> },
+    /// The explorer released this command.
+    Release { build: usize },
+    /// The released command finished with this result.
+    Finished { build: usize, term: Term },
+    /// Order chosen for newly ready dependents (only when there was a choice).
+    Order { menu: Vec<usize>, chosen: Vec<usize> },
+    Counts([usize; 6]),
+    TaskStarted { build: usize },
+    TaskFinished { build: usize, term: Term, output: Vec<u8> },
+    TaskOutput { build: usize, line: Vec<u8> },
+    Log(String),
+    /// A write to the db file: total length and how many bytes persisted.
+    DbWrite { len: usize, persisted: usize },
+}
+
+#[derive(Debug, Clone, PartialEq, Eq)]
+pub struct Point {
+    /// 'f' = which running command finishes, 'o' = order of ready dependents.
+    pub kind: char,
+    pub menu: Vec<usize>,
+    pub arity: usize,
+    pub chosen: usize,
+}
+
+struct Task {
+    build: usize,
+    cmdline: String,
+    parked: bool,
+    released: bool,
+    finished: bool,
+}
+
+/// Payload of the panic that simulates the death of the n2 process.
+pub struct CrashMarker;
+/// Payload of the panic that stops an execution the harness cannot continue.
+pub struct StopMarker(pub String);
+
+#[derive(Default)]
+struct Exec {
+    active: bool,
+    epoch: u64,
+    model: Option<Box<dyn CommandModel>>,
+    tasks: Vec<Task>,
+    trace: Vec<Event>,
+    prefix: Vec<usize>,
+    points: Vec<Point>,
+    explore_order: bool,
+    diverged: Option<String>,
+    stop_reason: Option<String>,
+    waits: usize,
+    max_waits: usize,
+    db_fault: Option<(usize, usize)>,
+    db_write_index: usize,
+    record_counts: bool,
+    cols: Option<Option<usize>>,
+}
+
+static STATE: Mutex<Option<Exec>> = Mutex::new(None);
+static CV: Condvar = Condvar::new();
+
+fn lock() -> MutexGuard<'static, Option<Exec>> {
+    match STATE.lock() {
+        Ok(g) => g,
+        Err(p) => p.into_inner(),
+    }
+}
+
+struct HarnessHooks;
+
+const GATE_TIMEOUT: Duration = Duration::from_secs(20);
+
+impl Exec {
+    fn next_choice(&mut self, kind: char, menu: Vec<usize>, arity: usize) -> usize {
+        if arity <= 1 {
+            return 0;
+        }
+        let i = self.points.len();
+        let chosen = if i < self.prefix.len() {
+            let c = self.prefix[i];
+            if c >= arity {
+                self.diverged = Some(format!(
+                    "choice {} of point {} out of range (arity {})",
+                    c, i, arity
+                ));
+                0
+            } else {
+                c
+            }
+        } else {
+            0
+        };
+        self.points.push(Point {
+            kind,
+            menu,
+            arity,
+            chosen,
+        });
+        chosen
+    }
+}
+
+impl Hooks for HarnessHooks {
+    fn run_begin(&self, parallelism: usize) {
+        let mut g = lock();
+        if let Some(e) = g.as_mut().filter(|e| e.active) {
+            e.trace.push(Event::RunBegin { parallelism });
+        }
+    }
+
+    fn start(&self, build: usize, cmdline: &str) {
+        let mut g = lock();
+        if let Some(e) = g.as_mut().filter(|e| e.active) {
+            e.trace.push(Event::Start {
+                build,
+                cmdline: cmdline.to_string(),
+            });
+            e.tasks.push(Task {
+                build,
+                cmdline: cmdline.to_string(),
+                parked: false,
+                released: false,
+                finished: false,
+            });
+        }
+    }
+
+    fn wait(&self, believed: usize) {
+        let mut g = lock();
+        let Some(e) = g.as_mut().filter(|e| e.active) else {
+            return;
+        };
+        e.waits += 1;
+        let live: Vec<usize> = e
+            .tasks
+            .iter()
+            .filter(|t| !t.finished)
+            .map(|t| t.build)
+            .collect();
+        let mut sorted = live.clone();
+        sorted.sort();
+        e.trace.push(Event::Wait {
+            believed,
+            running: sorted.clone(),
+        });
+        if live.is_empty() {
+            // n2 would block forever on its channel.
+            e.stop_reason = Some("wait-with-nothing-running".to_string());
+            drop(g);
+            std::panic::panic_any(StopMarker("wait with nothing running".into()));
+        }
+        if e.waits > e.max_waits {
+            e.stop_reason = Some("horizon-exceeded".to_string());
+            drop(g);
+            std::panic::panic_any(StopMarker("more waits than the horizon allows".into()));
+        }
+        // Wait until every live task has arrived at its gate.
+        let deadline = Instant::now() + GATE_TIMEOUT;
+        loop {
+            let e = g.as_mut().unwrap();
+            if e.tasks.iter().all(|t| t.finished || t.parked) {
+                break;
+            }
+            let now = Instant::now();
+            if now >= deadline {
+                e.stop_reason = Some("machinery:task-never-reached-gate".to_string());
+                drop(g);
+                std::panic::panic_any(StopMarker("a started task never reached its gate".into()));
+            }
+            g = match CV.wait_timeout(g, deadline - now) {
+                Ok((g, _)) => g,
+                Err(p) => p.into_inner().0,
+            };
+        }
+        let e = g.as_mut().unwrap();
+        let arity = sorted.len();
+        let c = e.next_choice('f', sorted.clone(), arity);
+        let build = sorted[c];
+        let t = e
+            .tasks
+            .iter_mut()
+            .find(|t| t.build == build && !t.finished)
+            .unwrap();
+        t.released = true;
+        e.trace.push(Event::Release { build });
+        CV.notify_all();
+    }
+
+    fn run_command(
+        &self,
+        cmdline: &str,
+        output: &mut dyn FnMut(&[u8]),
+    ) -> Option<anyhow::Result<Termination>> {
+        let mut g = lock();
+        let e = g.as_mut().filter(|e| e.active)?;
+        let epoch = e.epoch;
+        let Some(idx) = e
+            .tasks
+            .iter()
+            .position(|t| t.cmdline == cmdline && !t.parked && !t.finished)
+        else {
+            e.stop_reason = Some(format!("machinery:unknown-command:{}", cmdline));
+            return Some(Ok(Termination::Failure));
+        };
+        e.tasks[idx].parked = true;
+        let build = e.tasks[idx].build;
+        CV.notify_all();
+        loop {
+            let e = match g.as_mut() {
+                Some(e) if e.epoch == epoch && e.active => e,
+                _ => return Some(Ok(Termination::Failure)), // abandoned
+            };
+            if e.tasks[idx].released {
+                break;
+            }
+            g = match CV.wait(g) {
+                Ok(g) => g,
+                Err(p) => p.into_inner(),
+            };
+        }
+        let e = g.as_mut().unwrap();
+        let mut model = e.model.take().expect("command model present");
+        // The model runs with the lock held: nothing else may run now.
+        let term = model.run(cmdline, output);
+        e.model = Some(model);
+        e.tasks[idx].finished = true;
+        e.trace.push(Event::Finished { build, term });
+        Some(Ok(term.to_n2()))
+    }
+
+    fn order(&self, ids: Vec<usize>) -> Vec<usize> {
+        let mut g = lock();
+        let Some(e) = g.as_mut().filter(|e| e.active) else {
+            return ids;
+        };
+        if ids.len() < 2 || !e.explore_order {
+            return ids;
+        }
+        let perms = vcore::enumerate::permutations(ids.len());
+        let c = e.next_choice('o', ids.clone(), perms.len());
+        let chosen: Vec<usize> = perms[c].iter().map(|&i| ids[i]).collect();
+        e.trace.push(Event::Order {
+            menu: ids,
+            chosen: chosen.clone(),
+        });
+        chosen
+    }
+
+    fn db_write(
+        &self,
+        w: &mut dyn std::io::Write,
+        bytes: &[u8],
+    ) -> Option<std::io::Result<()>> {
+        let mut g = lock();
+        let e = g.as_mut().filter(|e| e.active)?;
+        let index = e.db_write_index;
+        e.db_write_index += 1;
+        match e.db_fault {
+            Some((at, keep)) if at == index => {
+                let keep = keep.min(bytes.len());
+                let r = w.write_all(&bytes[..keep]);
+                e.trace.push(Event::DbWrite {
+                    len: bytes.len(),
+                    persisted: keep,
+                });
+                drop(g);
+                if let Err(err) = r {
+                    return Some(Err(err));
+                }
+                // The process dies here.
+                std::panic::panic_any(CrashMarker);
+            }
+            _ => {
+                e.trace.push(Event::DbWrite {
+                    len: bytes.len(),
+                    persisted: bytes.len(),
+                });
+                None
+            }
+        }
+    }
+
+    fn capture_progress(&self) -> bool {
+        lock().as_ref().map(|e| e.active).unwrap_or(false)
+    }
+
+    fn progress(&self, ev: ProgressEvent) {
+        let mut g = lock();
+        let Some(e) = g.as_mut().filter(|e| e.active) else {
+            return;
+        };
+        match ev {
+            ProgressEvent::Update(c) => {
+                if e.record_counts {
+                    e.trace.push(Event::Counts(c))
+                }
+            }
+            ProgressEvent::TaskStarted { build } => e.trace.push(Event::TaskStarted { build }),
+            ProgressEvent::TaskOutput { build, line } => {
+                e.trace.push(Event::TaskOutput { build, line })
+            }
+            ProgressEvent::TaskFinished {
+                build,
+                termination,
+                output,
+            } => e.trace.push(Event::TaskFinished {
+                build,
+                term: Term::from_n2(&termination),
+                output,
+            }),
+            ProgressEvent::Log(s) => e.trace.push(Event::Log(s)),
+        }
+    }
+
+    fn cols(&self) -> Option<Option<usize>> {
+        lock().as_ref().and_then(|e| e.cols)
+    }
+}
+
+static INSTALL: std::sync::Once = std::sync::Once::new();
+
+pub fn install_hooks() {
+    INSTALL.call_once(|| {
+        n2::verif::install(Box::new(HarnessHooks));
+        *lock() = Some(Exec::default());
+    });
+}
+
+pub fn set_cols(c: Option<Option<usize>>) {
+    if let Some(e) = lock().as_mut() {
+        e.cols = c;
+    }
+}
+
+pub struct ExecConfig {
+    pub model: Box<dyn CommandModel>,
+    pub prefix: Vec<usize>,
+    pub explore_order: bool,
+    pub db_fault: Option<(usize, usize)>,
+    pub max_waits: usize,
+    pub record_counts: bool,
+}
+
+#[derive(Debug, Clone, PartialEq, Eq)]
+pub enum BuildResult {
+    /// `Ok(Some(n))`: success, n tasks ran.
+    Success(usize),
+    /// `Ok(None)`: a command failed or was interrupted.
+    Failed,
+    /// `Err(msg)`.
+    Error(String),
+    /// The simulated process death requested through `db_fault`.
+    Crashed,
+    /// The harness stopped the execution (wait with nothing running, horizon).
+    Stopped(String),
+    Panicked(PanicRecord2),
+}
+
+#[derive(Debug, Clone, PartialEq, Eq)]
+pub struct PanicRecord2 {
+    pub message: String,
+    pub location: String,
+    pub key: String,
+}
+
+pub struct ExecOutcome {
+    pub result: BuildResult,
+    pub trace: Vec<Event>,
+    pub points: Vec<Point>,
+    pub model: Box<dyn CommandModel>,
+    /// Set when the recorded choice prefix did not fit the execution.
+    pub diverged: Option<String>,
+    /// Panics on task threads (n2's own code running there).
+    pub thread_panics: Vec<PanicRecord>,
+}
+
+/// Runs one in-process invocation of n2 under the scripted executor.
+pub fn run_build(cfg: ExecConfig, opts: BuildOpts) -> ExecOutcome {
+    install_hooks();
+    {
+        let mut g = lock();
+        let e = g.as_mut().unwrap();
+        let epoch = e.epoch + 1;
+        let cols = e.cols;
+        *e = Exec::default();
+        e.epoch = epoch;
+        e.cols = cols;
+        e.active = true;
+        e.model = Some(cfg.model);
+        e.prefix = cfg.prefix;
+        e.explore_order = cfg.explore_order;
+        e.db_fault = cfg.db_fault;
+        e.max_waits = cfg.max_waits;
+        e.record_counts = cfg.record_counts;
+    }
+    let _ = crate::worker::take_other_thread_panics();
+    let r = catch(|| n2::verif::verif_build(opts));
+    // Let every started task reach its gate, then abandon the rest.
+    let mut g = lock();
+    let deadline = Instant::now() + GATE_TIMEOUT;
+    let mut machinery = None;
+    loop {
+        let e = g.as_mut().unwrap();
+        if e.tasks.iter().all(|t| t.finished || t.parked) {
+            break;
+        }
+        let now = Instant::now();
+        if now >= deadline {
+            machinery = Some("a started task never reached its gate".to_string());
+            break;
+        }
+        g = match CV.wait_timeout(g, deadline - now) {
+            Ok((g, _)) => g,
+            Err(p) => p.into_inner().0,
+        };
+    }
+    let e = g.as_mut().unwrap();
+    e.active = false;
+    e.epoch += 1;
+    CV.notify_all();
+    let stop = e.stop_reason.take().or(machinery);
+    let result = match r {
+        Ok(Ok(Some(n))) => BuildResult::Success(n),
+        Ok(Ok(None)) => BuildResult::Failed,
+        Ok(Err(err)) => BuildResult::Error(format!("{}", err)),
+        Err(p) => {
+            if p.message == "<crash marker>" {
+                BuildResult::Crashed
+            } else if p.message.starts_with("<stop marker>") {
+                BuildResult::Stopped(stop.clone().unwrap_or_else(|| p.message.clone()))
+            } else {
+                BuildResult::Panicked(PanicRecord2 {
+                    key: p.key(),
+                    message: p.message,
+                    location: p.location,
+                })
+            }
+        }
+    };
+    let result = match (&result, &stop) {
+        (BuildResult::Stopped(_), _) => result,
+        (_, Some(s)) if s.starts_with("machinery:") => BuildResult::Stopped(s.clone()),
+        _ => result,
+    };
+    ExecOutcome {
+        result,
+        trace: std::mem::take(&mut e.trace),
+        points: std::mem::take(&mut e.points),
+        model: e.model.take().expect("model returned"),
+        diverged: e.diverged.take(),
+        thread_panics: crate::worker::take_other_thread_panics(),
+    }
+}
+
+// ---------------------------------------------------------------------------
+// File system helpers with a logical clock.
+
+pub const EPOCH0: u64 = 1_600_000_000;
+
+pub fn mtime_of(tick: u64) -> SystemTime {
+    SystemTime::UNIX_EPOCH + Duration::from_secs(EPOCH0 + tick)
+}
+
+pub fn write_file(path: &str, content: &[u8], tick: u64) {
+    let p = Path::new(path);
+    if let Some(parent) = p.parent() {
+        if !parent.as_os_str().is_empty() {
+            std::fs::create_dir_all(parent).expect("mkdir");
+        }
+    }
+    std::fs::write(p, content).unwrap_or_else(|e| panic!("write {}: {}", path, e));
+    set_mtime(path, tick);
+}
+
+pub fn set_mtime(path: &str, tick: u64) {
+    let f = std::fs::OpenOptions::new()
+        .write(true)
+        .open(path)
+        .unwrap_or_else(|e| panic!("open {}: {}", path, e));
+    f.set_modified(mtime_of(tick)).expect("set mtime");
+}
+
+pub fn remove_file(path: &str) {
+    let _ = std::fs::remove_file(path);
+}
+
+/// An in-memory copy of a small directory tree (files only).
+#[derive(Clone, Default)]
+pub struct Snapshot {
+    pub files: Vec<(String, Vec<u8>, SystemTime)>,
+}
+
+fn walk(dir: &Path, prefix: &str, out: &mut Vec<String>) {
+    let Ok(rd) = std::fs::read_dir(dir) else {
+        return;
+    };
+    for ent in rd.flatten() {
+        let name = ent.file_name().to_string_lossy().into_owned();
+        let rel = if prefix.is_empty() {
+            name.clone()
+        } else {
+            format!("{}/{}", prefix, name)
+        };
+        match ent.file_type() {
+            Ok(t) if t.is_dir() => walk(&ent.path(), &rel, out),
+            Ok(_) => out.push(rel),
+            Err(_) => {}
+        }
+    }
+}
+
+pub fn snapshot() -> Snapshot {
+    let mut names = Vec::new();
+    walk(Path::new("."), "", &mut names);
+    names.sort();
+    let mut s = Snapshot::default();
+    for n in names {
+        let data = std::fs::read(&n).unwrap_or_default();
+        let mt = std::fs::metadata(&n)
+            .and_then(|m| m.modified())
+            .unwrap_or(SystemTime::UNIX_EPOCH);
+        s.files.push((n, data, mt));
+    }
+    s
+}
+
+/// Empties the current directory (the worker's scratch dir).
+pub fn clear_dir() {
+    let Ok(rd) = std::fs::read_dir(".") else {
+        return;
+    };
+    for ent in rd.flatten() {
+        let p = ent.path();
+        match ent.file_type() {
+            Ok(t) if t.is_dir() => {
+                let _ = std::fs::remove_dir_all(&p);
+            }
+            _ => {
+                let _ = std::fs::remove_file(&p);
+            }
+        }
+    }
+}
+
+pub fn restore(s: &Snapshot) {
+    clear_dir();
+    for (name, data, mt) in &s.files {
+        let p = Path::new(name);
+        if let Some(parent) = p.parent() {
+            if !parent.as_os_str().is_empty() {
+                std::fs::create_dir_all(parent).expect("mkdir");
+            }
+        }
+        std::fs::write(p, data).expect("restore write");
+        let f = std::fs::OpenOptions::new().write(true).open(p).expect("open");
+        f.set_modified(*mt).expect("set mtime");
+    }
+}
